@@ -1560,16 +1560,20 @@ static int parse_loop_header(struct scanner_s *scanner, cif_container_tp *contai
                 if ((result == CIF_NOSUCH_ITEM) && (container != NULL)) {
                     /* the name must not duplicate one that appears earlier in this same loop header, either */
                     UChar *name_norm = NULL;
+                    int norm_result = cif_normalize((*next_namep)->string, -1, &name_norm);
 
-                    if (cif_normalize((*next_namep)->string, -1, &name_norm) == CIF_OK) {
+                    if (norm_result == CIF_OK) {
                         string_element_tp *earlier;
 
                         for (earlier = *name_list_head; (earlier != *next_namep) && (result != CIF_OK);
                                 earlier = earlier->next) {
                             UChar *earlier_norm = NULL;
 
-                            if ((earlier->string != NULL)
-                                    && (cif_normalize(earlier->string, -1, &earlier_norm) == CIF_OK)) {
+                            if (earlier->string != NULL) {
+                                norm_result = cif_normalize(earlier->string, -1, &earlier_norm);
+                                if (norm_result != CIF_OK) {
+                                    break;
+                                }
                                 if (u_strcmp(name_norm, earlier_norm) == 0) {
                                     result = CIF_OK;  /* handled as a duplicate, below */
                                 }
@@ -1577,6 +1581,10 @@ static int parse_loop_header(struct scanner_s *scanner, cif_container_tp *contai
                             }
                         }
                         free(name_norm);
+                    }
+                    if (norm_result != CIF_OK) {
+                        /* the names were validated above, so this is a resource failure; a duplicate must not go unnoticed */
+                        return norm_result;
                     }
                 }
                 switch (result) {
